@@ -187,7 +187,8 @@ theorem mulAll_wf {xs : List Num} {r : Num} (h : Num.mulAll xs = .ok r) : r.WF :
 
 example : Num.mulAll [.rat 1 2, .int 4, .rat 1 6] = .ok (.rat 1 3) := rfl
 
-/-- n-ary `-` and `/`. -/
+/-- n-ary `-` and `/` (the `/` of `base.rs`, i.e. `divAll` with its check for an exact zero divisor among
+exact operands: a result it returns is a result of the plain fold, so it is well-formed). -/
 theorem subAll_divAll_wf {xs : List Num} {r : Num} :
     (Num.subAll xs = .ok r → r.WF) ∧ (Num.divAll xs = .ok r → r.WF) := by
   constructor
@@ -202,18 +203,14 @@ theorem subAll_divAll_wf {xs : List Num} {r : Num} :
         rw [hs] at h'
         exact Num.foldlM_wf (fun _ _ _ => Num.sub_wf) rest i r (Num.sub_wf hs) h'
   · intro h
-    match xs, h with
-    | [x], h => exact Num.div_wf h
-    | x :: y :: rest, h =>
-      have h' : (Num.div x y >>= fun i => rest.foldlM Num.div i) = .ok r := h
-      cases hs : Num.div x y with
-      | error e => rw [hs] at h'; cases h'
-      | ok i =>
-        rw [hs] at h'
-        exact Num.foldlM_wf (fun _ _ _ => Num.div_wf) rest i r (Num.div_wf hs) h'
+    unfold Num.divAll at h
+    split at h
+    · cases h
+    · exact Num.divFold_wf h
 
 example : Num.subAll [.rat 1 2, .rat 1 3, .rat 1 6] = .ok (.int 0) ∧
-    Num.divAll [.int 1, .int 2, .int 3] = .ok (.rat 1 6) := ⟨rfl, rfl⟩
+    Num.divAll [.int 1, .int 2, .int 3] = .ok (.rat 1 6) ∧
+    (∃ f, Num.divAll [.int 2147483647, .rat 1 2, .real 0] = .ok (.real f)) := ⟨rfl, rfl, _, rfl⟩
 
 /-- n-ary `+` and `*` on arguments with positive denominators always return. -/
 theorem addAll_mulAll_ok {xs : List Num} (hxs : ∀ x ∈ xs, x.PosDen) :
@@ -326,11 +323,61 @@ example : (Num.int 2147483647).PosDen ∧ (Num.rat 1 2147483647).PosDen ∧
 /-- Division of an exact number by an exact zero is `divZero` (any representation of zero, integer
 or ratio branch), including the one-argument form `(/ x)`. -/
 theorem div_exact_zero {a b : Num} (ea : a.isExact = true) (hb : b.val = some 0) :
-    Num.div a b = .error .divZero ∧ Num.divAll [b] = .error .divZero :=
-  ⟨Num.div_exact_zero ea hb, Num.div_exact_zero (a := .int 1) rfl hb⟩
+    Num.div a b = .error .divZero ∧ Num.divAll [b] = .error .divZero := by
+  refine ⟨Num.div_exact_zero ea hb, ?_⟩
+  unfold Num.divAll
+  split
+  · rfl
+  · exact Num.div_exact_zero (a := .int 1) rfl hb
 
 example : (Num.rat 1 2).isExact = true ∧ (Num.int 0).val = some 0 :=
   ⟨rfl, by norm_num [Num.val]⟩
+
+/-- The n-ary `/`, an exact zero divisor AT ANY POSITION: if every operand is exact and some divisor (an operand
+after the first, or the single operand of `(/ z)`) is an exact zero - an integer or a ratio with numerator 0 -, the
+result is `divZero`. There is NO bound on the magnitudes: the running quotient may have left the `i32` range and be
+carried on as a real (where the plain fold `divFold` would go on to return an infinity or a NaN). -/
+theorem div_exact_zero_any_position {xs : List Num} (hxs : ∀ x ∈ xs, x.isExact = true)
+    (hz : (∃ z ∈ xs.tail, z.num = 0) ∨ (∃ z, xs = [z] ∧ z.num = 0)) :
+    Num.divAll xs = .error .divZero := by
+  apply Num.divAll_of_guard
+  rw [Num.guard_iff]
+  rcases hz with ⟨z, hz, nz⟩ | ⟨z, rfl, nz⟩
+  · right
+    match xs, hz with
+    | x :: ys, hz =>
+      obtain ⟨pre, post, rfl⟩ := List.append_of_mem (show z ∈ ys from hz)
+      exact ⟨x, pre, z, post, rfl, hxs x (by simp), fun y hy => hxs y (by simp [hy]), hxs z (by simp), nz⟩
+  · exact Or.inl ⟨z, rfl, hxs z (by simp), nz⟩
+
+example : (∀ x ∈ [Num.int 2147483647, .rat 1 2, .int 0], x.isExact = true) ∧
+    (∃ z ∈ [Num.int 2147483647, .rat 1 2, .int 0].tail, z.num = 0) ∧
+    Num.divAll [.int 2147483647, .rat 1 2, .int 0] = .error .divZero ∧
+    (∃ f, Num.divFold [.int 2147483647, .rat 1 2, .int 0] = .ok (.real f)) :=
+  ⟨by simp [Num.isExact], ⟨.int 0, by simp, rfl⟩, rfl, _, rfl⟩
+
+/-- The same with the weakest hypothesis: only the operands BEFORE the zero divisor need be exact; what follows it
+is arbitrary (also inexact). -/
+theorem div_exact_zero_after_exact_prefix {x z : Num} {pre : List Num} (post : List Num) (ex : x.isExact = true)
+    (epre : ∀ y ∈ pre, y.isExact = true) (ez : z.isExact = true) (nz : z.num = 0) :
+    Num.divAll (x :: (pre ++ z :: post)) = .error .divZero :=
+  Num.divAll_of_guard ((Num.guard_iff _).mpr (Or.inr ⟨x, pre, z, post, rfl, ex, epre, ez, nz⟩))
+
+example : Num.divAll [.int 2147483647, .rat 1 2, .rat 0 7, .real 1.5] = .error .divZero := rfl
+
+/-- Meaning of the check `divAll` makes before folding (`exactDivisors`, `isExactZero`): it fires exactly when the
+single operand of `(/ z)` is an exact zero, or an operand after the first is an exact zero and every operand before
+it is exact. (An inexact operand ends the check: from there on every quotient is a real by contagion.) -/
+theorem exact_zero_divisor_iff (xs : List Num) :
+    (Num.exactDivisors xs).any Num.isExactZero = true ↔
+      (∃ z, xs = [z] ∧ z.isExact = true ∧ z.num = 0) ∨
+      (∃ x pre z post, xs = x :: (pre ++ z :: post) ∧ x.isExact = true ∧ (∀ y ∈ pre, y.isExact = true) ∧
+        z.isExact = true ∧ z.num = 0) :=
+  Num.guard_iff xs
+
+example : (Num.exactDivisors [.int 1, .real 2, .int 0]).any Num.isExactZero = false ∧
+    (Num.exactDivisors [.int 0, .int 2]).any Num.isExactZero = false ∧
+    (Num.exactDivisors [.int 1, .int 2, .rat 0 3, .real 2]).any Num.isExactZero = true := ⟨rfl, rfl, rfl⟩
 
 /-- Conversely `divZero` is reported only then: with positive denominators `/` returns unless both
 operands are exact and the divisor is zero. -/
@@ -443,16 +490,52 @@ theorem subAll_eq_fold (x : Num) (ys : List Num) :
   | nil => exact absurd rfl h
   | cons y rest => rw [List.foldlM_cons]; rfl
 
-/-- `(/ x)` is `1 / x`; `(/ x y z ...)` folds from `x`. -/
-theorem divAll_eq_fold (x : Num) (ys : List Num) :
-    Num.divAll [x] = Num.div (.int 1) x ∧
-    (ys ≠ [] → Num.divAll (x :: ys) = ys.foldlM Num.div x) := by
-  refine ⟨rfl, fun h => ?_⟩
-  cases ys with
-  | nil => exact absurd rfl h
-  | cons y rest => rw [List.foldlM_cons]; rfl
+/-- The plain fold of `/`: `(/ x)` is `1 / x`; `(/ x y z ...)` folds from `x`. -/
+theorem divFold_eq_fold (x : Num) (ys : List Num) :
+    Num.divFold [x] = Num.div (.int 1) x ∧
+    (ys ≠ [] → Num.divFold (x :: ys) = ys.foldlM Num.div x) :=
+  ⟨rfl, Num.divFold_cons x⟩
+
+/-- The builtin `/` is that fold unless the check for an exact zero divisor among exact operands fires (see
+`exact_zero_divisor_iff` for its meaning), and `divZero` when it fires. Conversely it agrees with the fold exactly
+when the check does not fire or the fold is `divZero` itself, and it is `divZero` exactly when the check fires or the
+fold is `divZero`. -/
+theorem divAll_eq_fold (xs : List Num) :
+    ((Num.exactDivisors xs).any Num.isExactZero = false → Num.divAll xs = Num.divFold xs) ∧
+    ((Num.exactDivisors xs).any Num.isExactZero = true → Num.divAll xs = .error .divZero) ∧
+    (Num.divAll xs = Num.divFold xs ↔
+      ((Num.exactDivisors xs).any Num.isExactZero = false ∨ Num.divFold xs = .error .divZero)) ∧
+    (Num.divAll xs = .error .divZero ↔
+      ((Num.exactDivisors xs).any Num.isExactZero = true ∨ Num.divFold xs = .error .divZero)) := by
+  refine ⟨Num.divAll_of_not_guard, Num.divAll_of_guard, ?_, ?_⟩
+  · cases hg : (Num.exactDivisors xs).any Num.isExactZero with
+    | false => simp [Num.divAll_of_not_guard hg]
+    | true =>
+      rw [Num.divAll_of_guard hg]
+      constructor
+      · intro h; exact Or.inr h.symm
+      · rintro (h | h)
+        · cases h
+        · exact h.symm
+  · cases hg : (Num.exactDivisors xs).any Num.isExactZero with
+    | false => simp [Num.divAll_of_not_guard hg]
+    | true => simp [Num.divAll_of_guard hg]
 
 example : Num.subAll [.int 10, .int 3, .rat 1 2] = .ok (.rat 13 2) ∧
-    Num.divAll [.int 2] = .ok (.rat 1 2) := ⟨rfl, rfl⟩
+    Num.divAll [.int 2] = .ok (.rat 1 2) ∧ Num.divFold [.int 2] = .ok (.rat 1 2) ∧
+    (Num.exactDivisors [.int 2147483647, .rat 1 2, .int 0]).any Num.isExactZero = true ∧
+    Num.divAll [.int 2147483647, .rat 1 2, .int 0] = .error .divZero ∧
+    (Num.exactDivisors [.real 1, .int 0]).any Num.isExactZero = false ∧
+    (∃ f, Num.divAll [.real 1, .int 0] = .ok (.real f)) := ⟨rfl, rfl, rfl, rfl, rfl, rfl, _, rfl⟩
+
+/-- The two differ only after an overflow: when the builtin `/` is not the plain fold, the fold carried a quotient
+that had left the exact range on to an exact zero divisor and returned a real, and the builtin reports `divZero`.
+(`div` never panics, its only error is `divZero`.) -/
+theorem divAll_differs_only_on_overflow {xs : List Num} (h : Num.divAll xs ≠ Num.divFold xs) :
+    Num.divAll xs = .error .divZero ∧ ∃ f, Num.divFold xs = .ok (.real f) :=
+  Num.divAll_ne_divFold h
+
+example : Num.divAll [.int 2147483647, .rat 1 2, .int 0] ≠ Num.divFold [.int 2147483647, .rat 1 2, .int 0] := by
+  intro h; cases h
 
 end Ruschm.C09
